@@ -1,4 +1,5 @@
 import Proofs.AlignLemmas
+import Proofs.AlignArgsLemmas
 import Mathlib.Algebra.Order.Ring.Rat
 
 /-!
@@ -13,6 +14,13 @@ in `out.events`.  `statusCount k`, `correctCount k` count the events of image `k
 All statements hold for every list of images, every assignment of group ids, every reference
 catalog, every option value and every overlap function; the only hypothesis `NonnegRaw` says that
 the guarded areas between groups are not negative (they are absolute values), as in C15.
+
+Whether the matched sources of a group can be fitted is data of the input (`Img.fitFail`); since
+/repo 4565404 `align_to_ref` reports a degenerate fit as `FAILED: singular matrix` / `FAILED: not
+enough points` (`cfg.catchFit = true`, the default).  The first seven theorems hold for both values
+of `cfg.catchFit`; `no_midrun_exception` is the statement that fails for the behaviour before the
+repair (witness: `example`s at the end).  Second part: `alignWcsEntry` (argument validation at the
+top of `align_wcs`) and `fitWcs` (`fit_wcs`).
 -/
 open TW TW.C15L TW.AlignL
 set_option linter.unusedSectionVars false
@@ -30,7 +38,7 @@ theorem status_total (hg : NonnegRaw (keptGroups imgs).length pairG)
     ∃ s, Event.status k s ∈ (alignWcs imgs refIn cfg pairG refArea).events ∧
       ∀ s', Event.status k s' ∈ (alignWcs imgs refIn cfg pairG refArea).events → s' = s := by
   rw [← keptGroups_eq] at hg
-  obtain ⟨refGroups, results, hev, _, hperm, _⟩ := alignWcs_decomp imgs cfg pairG refArea refIn hg hret
+  obtain ⟨refGroups, results, hev, _, _, hperm, _⟩ := alignWcs_decomp imgs cfg pairG refArea refIn hg hret
   have hcount : statusCount k (alignWcs imgs refIn cfg pairG refArea).events = 1 := by
     rw [hev, statusCount_append, statusCount_append, count_refblock, statusCount_blocks]
     have h1 := count_flatten_perm hperm k
@@ -65,7 +73,7 @@ theorem reference_iff (hg : NonnegRaw (keptGroups imgs).length pairG)
         ∀ k, Event.status k .reference ∈ (alignWcs imgs refIn cfg pairG refArea).events ↔ k ∈ gr) ∧
     (refIn ≠ none → ∀ k, Event.status k .reference ∉ (alignWcs imgs refIn cfg pairG refArea).events) := by
   rw [← keptGroups_eq] at hg
-  obtain ⟨refGroups, results, hev, _, hperm, hlen⟩ := alignWcs_decomp imgs cfg pairG refArea refIn hg hret
+  obtain ⟨refGroups, results, hev, _, _, hperm, hlen⟩ := alignWcs_decomp imgs cfg pairG refArea refIn hg hret
   have hmem : ∀ k, Event.status k .reference ∈ (alignWcs imgs refIn cfg pairG refArea).events ↔
       ∃ gr ∈ refGroups, k ∈ gr := by
     intro k
@@ -78,7 +86,7 @@ theorem reference_iff (hg : NonnegRaw (keptGroups imgs).length pairG)
         injection he with h1 _
         subst h1
         exact ⟨gr, hgr, hi⟩
-      · split at h <;> cases h
+      · cases hr2 : r.2 <;> rw [hr2] at h <;> cases h
     · rintro ⟨gr, hgr, hk⟩
       refine Or.inl (Or.inr ?_)
       simp only [List.mem_flatMap, List.mem_map]
@@ -133,12 +141,12 @@ theorem corrected_once (hg : NonnegRaw (keptGroups imgs).length pairG)
     correctCount k (alignWcs imgs refIn cfg pairG refArea).events =
       if Event.status k .success ∈ (alignWcs imgs refIn cfg pairG refArea).events then 1 else 0 := by
   rw [← keptGroups_eq] at hg
-  obtain ⟨refGroups, results, hev, _, hperm, _⟩ := alignWcs_decomp imgs cfg pairG refArea refIn hg hret
+  obtain ⟨refGroups, results, hev, _, _, hperm, _⟩ := alignWcs_decomp imgs cfg pairG refArea refIn hg hret
   have hc : correctCount k (alignWcs imgs refIn cfg pairG refArea).events
-      = ((results.filter (·.2)).map (·.1)).flatten.count k := by
+      = ((results.filter (·.2.isNone)).map (·.1)).flatten.count k := by
     rw [hev, correctCount_append, correctCount_append, correctCount_dropEmpty, correct_refblock,
       correctCount_blocks]; omega
-  have hle : ((results.filter (·.2)).map (·.1)).flatten.count k ≤ 1 := by
+  have hle : ((results.filter (·.2.isNone)).map (·.1)).flatten.count k ≤ 1 := by
     have h1 := count_flatten_perm hperm k
     rw [List.flatten_append, List.count_append] at h1
     have h2 := statusCount_dropEmpty imgs (formGroups (imgs.map (·.gid))) k
@@ -146,7 +154,7 @@ theorem corrected_once (hg : NonnegRaw (keptGroups imgs).length pairG)
     have h4 := count_filter_le k results
     split at h3 <;> omega
   have hs : Event.status k .success ∈ (alignWcs imgs refIn cfg pairG refArea).events ↔
-      k ∈ ((results.filter (·.2)).map (·.1)).flatten := by
+      k ∈ ((results.filter (·.2.isNone)).map (·.1)).flatten := by
     rw [hev, List.mem_append, List.mem_append, mem_dropEmpty_status, mem_blocks_status]
     simp only [List.mem_flatten, List.mem_map, List.mem_filter]
     constructor
@@ -156,10 +164,14 @@ theorem corrected_once (hg : NonnegRaw (keptGroups imgs).length pairG)
         obtain ⟨gr, _, i, _, he⟩ := h
         injection he with _ h2; cases h2
       · refine ⟨r.1, ⟨r, ⟨hr, ?_⟩, rfl⟩, hk⟩
-        by_contra hc
-        rw [if_neg hc] at hs; cases hs
+        cases hr2 : r.2 with
+        | none => rfl
+        | some x => rw [hr2] at hs; cases hs
     · rintro ⟨gr, ⟨r, ⟨hr, hok⟩, rfl⟩, hk⟩
-      exact Or.inr ⟨r, hr, hk, by rw [if_pos hok]⟩
+      refine Or.inr ⟨r, hr, hk, ?_⟩
+      cases hr2 : r.2 with
+      | none => rfl
+      | some x => rw [hr2] at hok; cases hok
   rw [hc]
   split
   · next h =>
@@ -219,8 +231,8 @@ theorem not_enough_iff :
         simp [alignFail] at h
       · next st _ =>
         simp only at h
-        rcases alignLoop_err imgs _ cfg _ refArea _ st.cur st.work st.cat with h1 | h1 <;>
-          rw [h1] at h <;> cases h
+        rcases alignLoop_err imgs _ cfg _ refArea _ st.cur st.work st.cat with
+          h1 | ⟨h1, _⟩ | ⟨h1, _⟩ | ⟨f, h1, _⟩ <;> rw [h1] at h <;> cases h
     · rintro (⟨h1, h2⟩ | h)
       · exact absurd (Or.inl ⟨by rw [h1]; rfl, h2⟩) hne
       · exact absurd (Or.inr h) hne
@@ -266,14 +278,652 @@ theorem raises_before_any_change
       simp [alignFail] at h
     · next st _ =>
       simp only at h
-      rcases alignLoop_err imgs _ cfg _ refArea _ st.cur st.work st.cat with h1 | h1 <;>
-        rw [h1] at h <;> simp at h
+      rcases alignLoop_err imgs _ cfg _ refArea _ st.cur st.work st.cat with
+        h1 | ⟨h1, _⟩ | ⟨h1, _⟩ | ⟨f, h1, _⟩ <;> rw [h1] at h <;> simp at h
+
+
+/-! ### degenerate fits -/
+
+/-- **status_reasons**: the only statuses `align_wcs` writes are REFERENCE, SUCCESS and FAILED with
+one of four reasons (whether it returns or raises) -/
+theorem status_reasons (k : Nat) (s : Status)
+    (h : Event.status k s ∈ (alignWcs imgs refIn cfg pairG refArea).events) :
+    s = .reference ∨ s = .success ∨ s = .failed .emptyCatalog ∨ s = .failed .notEnoughMatches ∨
+    s = .failed .singularMatrix ∨ s = .failed .notEnoughPoints := by
+  rcases alignWcs_ends imgs cfg refArea refIn pairG with
+    ⟨h1, _⟩ | h1 | ⟨h1, _, _⟩ | ⟨st, _, hst, _, _, _, _, _, _, hev⟩
+  · rw [h1] at h; simp [alignFail] at h
+  · rw [h1] at h
+    exact Or.inr (Or.inr (Or.inl ((mem_dropEmpty_status imgs _ k s).mp h).1))
+  · rw [h1] at h
+    exact Or.inr (Or.inr (Or.inl ((mem_dropEmpty_status imgs _ k s).mp h).1))
+  · rw [hev, List.mem_append, List.mem_append] at h
+    rcases h with (h | h) | h
+    · exact Or.inr (Or.inr (Or.inl ((mem_dropEmpty_status imgs _ k s).mp h).1))
+    · obtain ⟨gr, hgr⟩ := alignStart_ev1 imgs _ _ refArea refIn pairG st hst
+      rw [hgr] at h
+      obtain ⟨i, _, hi⟩ := List.mem_map.mp h
+      injection hi with _ h2
+      exact Or.inl h2.symm
+    · obtain ⟨r, hr, _, hs⟩ := (mem_blocks_status k s _).mp h
+      obtain ⟨nm, _, cat', _, _, _, h4⟩ :=
+        forall₂_left (alignLoop_outcomes imgs _ cfg _ refArea _ st.cur st.work st.cat) r hr
+      rw [hs, h4]
+      rcases groupOutcome_cases imgs cfg r.1 cat' with h5 | h5 | h5 | h5 <;> rw [h5] <;> simp [outcomeStatus]
+
+/-- **no_midrun_exception**: with valid arguments (`fitgeom` known) `align_wcs` is left by an
+exception only for too few non-empty catalogs, an empty reference catalog, or — with `match=None` —
+catalogs of unequal length; in particular no degenerate fit makes it raise (since 4565404) -/
+theorem no_midrun_exception (hg : NonnegRaw (keptGroups imgs).length pairG)
+    (hc : cfg.catchFit = true) (hk : cfg.fitgeomKnown = true) :
+    (alignWcs imgs refIn cfg pairG refArea).err = none ∨
+    (alignWcs imgs refIn cfg pairG refArea).err = some .notEnoughCatalogs ∨
+    (alignWcs imgs refIn cfg pairG refArea).err = some .emptyRefcat ∨
+    ((alignWcs imgs refIn cfg pairG refArea).err = some .lengthMismatch ∧ cfg.mode = .none1to1) := by
+  rw [← keptGroups_eq] at hg
+  rcases alignWcs_ends imgs cfg refArea refIn pairG with
+    ⟨h1, _⟩ | h1 | ⟨_, hst, hne⟩ | ⟨st, _, _, herr, _⟩
+  · rw [h1]; exact Or.inr (Or.inr (Or.inl rfl))
+  · rw [h1]; exact Or.inr (Or.inl rfl)
+  · exfalso
+    cases refIn with
+    | none =>
+      have hn : 2 ≤ (dropEmpty imgs (formGroups (imgs.map (·.gid)))).1.length := by
+        by_contra hcn
+        exact hne (Or.inl ⟨rfl, by omega⟩)
+      obtain ⟨ri, ii, a, rest, hst', _⟩ :=
+        alignStart_none imgs _ (cfg.enforce || !cfg.expand) pairG refArea hn hg
+      rw [hst'] at hst; cases hst
+    | some p =>
+      obtain ⟨srcs, ids⟩ := p
+      rw [alignStart_some] at hst; cases hst
+  · rw [herr]
+    rcases alignLoop_err imgs _ cfg _ refArea _ st.cur st.work st.cat with
+      h1 | ⟨h1, h2⟩ | ⟨_, h2⟩ | ⟨f, _, h2⟩
+    · exact Or.inl h1
+    · exact Or.inr (Or.inr (Or.inr ⟨h1, h2⟩))
+    · rw [hk] at h2; cases h2
+    · rw [hc] at h2; cases h2
+
+/-- **group_outcome**: the group aligned in position `i` is matched against a reference catalog
+`cat'` that extends the initial one (and *is* the initial one without `expand_refcat`); its
+`nmatches` is the number of its sources found there, and its outcome is decided by exactly that:
+`FAILED: not enough matches` below `max(minobj, minimum of the fit geometry)`, else the failure of
+a degenerate fit (`FAILED: singular matrix` / `not enough points`), else SUCCESS -/
+theorem group_outcome (i : Nat) (gr : List Nat)
+    (h : (alignWcs imgs refIn cfg pairG refArea).order[i]? = some gr) :
+    ∃ (cat' : List RefRow) (nm : Nat),
+      (∃ t, cat' = (alignWcs imgs refIn cfg pairG refArea).initial ++ t) ∧
+      (cfg.expand = false → cat' = (alignWcs imgs refIn cfg pairG refArea).initial) ∧
+      (alignWcs imgs refIn cfg pairG refArea).nms[i]? = some nm ∧ nm = nMatches imgs cfg gr cat' ∧
+      (alignWcs imgs refIn cfg pairG refArea).outcomes[i]? = some
+        (if nm < effMinobj cfg then some .notEnoughMatches else (fitFailOf imgs gr).map (·.reason)) := by
+  rcases alignWcs_ends imgs cfg refArea refIn pairG with
+    ⟨h1, _⟩ | h1 | ⟨h1, _, _⟩ | ⟨st, _, hst, _, hord, hout, hnms, hini, _, _⟩
+  · rw [h1] at h; simp [alignFail] at h
+  · rw [h1] at h; simp [alignFail] at h
+  · rw [h1] at h; simp [alignFail] at h
+  · rw [hord, List.getElem?_map] at h
+    cases hr : (alignLoop imgs (dropEmpty imgs (formGroups (imgs.map (·.gid)))).1 cfg
+        (cfg.enforce || !cfg.expand) refArea ((dropEmpty imgs (formGroups (imgs.map (·.gid)))).1.length + 1)
+        st.cur st.work st.cat).results[i]? with
+    | none => rw [hr] at h; cases h
+    | some r =>
+      rw [hr] at h
+      simp only [Option.map_some, Option.some.injEq] at h
+      obtain ⟨nm, hnm, cat', h1, h2, h3, h4⟩ :=
+        forall₂_get (alignLoop_outcomes imgs _ cfg _ refArea _ st.cur st.work st.cat) i r hr
+      refine ⟨cat', nm, by rw [hini]; exact h1, by rw [hini]; exact h2, by rw [hnms]; exact hnm,
+        by rw [← h]; exact h3, ?_⟩
+      rw [hout, List.getElem?_map, hr, Option.map_some, h4, ← h, h3]
+      rfl
+
+/-- **fit_failure_status** (first half of the isolation of a degenerate fit): a group that ends
+`FAILED: singular matrix` / `FAILED: not enough points` is one whose fit is degenerate and that had
+enough matches; every member carries that status, none was passed to `set_correction`, none is
+SUCCESS -/
+theorem fit_failure_status (hg : NonnegRaw (keptGroups imgs).length pairG)
+    (hret : (alignWcs imgs refIn cfg pairG refArea).err = none) (i : Nat) (gr : List Nat) (f : FitFail)
+    (ho : (alignWcs imgs refIn cfg pairG refArea).order[i]? = some gr)
+    (hf : (alignWcs imgs refIn cfg pairG refArea).outcomes[i]? = some (some f.reason)) :
+    fitFailOf imgs gr = some f ∧
+    (∃ nm, (alignWcs imgs refIn cfg pairG refArea).nms[i]? = some nm ∧ effMinobj cfg ≤ nm) ∧
+    ∀ k ∈ gr, Event.status k (.failed f.reason) ∈ (alignWcs imgs refIn cfg pairG refArea).events ∧
+      Event.status k .success ∉ (alignWcs imgs refIn cfg pairG refArea).events ∧
+      Event.correct k ∉ (alignWcs imgs refIn cfg pairG refArea).events := by
+  obtain ⟨cat', nm, _, _, hnm, _, hout⟩ := group_outcome imgs refIn cfg pairG refArea i gr ho
+  rw [hf] at hout
+  simp only [Option.some.injEq] at hout
+  have hge : ¬ nm < effMinobj cfg := by
+    intro hlt
+    rw [if_pos hlt] at hout
+    cases f <;> cases hout
+  rw [if_neg hge] at hout
+  have hff : fitFailOf imgs gr = some f := by
+    cases hfo : fitFailOf imgs gr with
+    | none => rw [hfo] at hout; cases hout
+    | some f' =>
+      rw [hfo] at hout
+      simp only [Option.map_some, Option.some.injEq] at hout
+      cases f <;> cases f' <;> first | rfl | cases hout
+  refine ⟨hff, ⟨nm, hnm, by omega⟩, ?_⟩
+  intro k hk
+  have hg' := hg
+  rw [← keptGroups_eq] at hg'
+  obtain ⟨refGroups, results, hev, hord, houtc, hperm, _⟩ :=
+    alignWcs_decomp imgs cfg pairG refArea refIn hg' hret
+  -- the block of this group
+  have hres : (gr, some f.reason) ∈ results := by
+    rw [hord, List.getElem?_map] at ho
+    rw [houtc, List.getElem?_map] at hf
+    cases hr : results[i]? with
+    | none => rw [hr] at ho; cases ho
+    | some r =>
+      rw [hr] at ho hf
+      simp only [Option.map_some, Option.some.injEq] at ho hf
+      have : r = (gr, some f.reason) := by rw [← ho, ← hf]
+      rw [← this]
+      exact List.mem_of_getElem? hr
+  have hst : Event.status k (.failed f.reason) ∈ (alignWcs imgs refIn cfg pairG refArea).events := by
+    rw [hev]
+    apply List.mem_append_right
+    exact (mem_blocks_status k _ results).mpr ⟨_, hres, hk, rfl⟩
+  -- `k` is an input image
+  have hklt : k < imgs.length := by
+    have h1 : gr ∈ (dropEmpty imgs (formGroups (imgs.map (·.gid)))).1 :=
+      hperm.subset (List.mem_append_right _ (List.mem_map.mpr ⟨_, hres, rfl⟩))
+    rw [dropEmpty_kept, List.mem_filter] at h1
+    have h2 : 0 < (formGroups (imgs.map (·.gid))).flatten.count k :=
+      List.count_pos_iff.mpr (List.mem_flatten.mpr ⟨gr, h1.1, hk⟩)
+    rw [groups_count, gids_length] at h2
+    by_contra hc
+    rw [if_neg hc] at h2
+    cases h2
+  obtain ⟨_, s, _, huniq⟩ := status_total imgs refIn cfg pairG refArea hg hret k hklt
+  have hns : Event.status k .success ∉ (alignWcs imgs refIn cfg pairG refArea).events := by
+    intro hsucc
+    have e1 := huniq _ hst
+    have e2 := huniq _ hsucc
+    rw [← e2] at e1
+    cases e1
+  exact ⟨hst, hns, unchanged_if_not_success imgs refIn cfg pairG refArea hg hret k hns⟩
+
+/-- **fit_failure_isolated**: without `expand_refcat` every group is treated on its own.  Let
+`imgs'` be any input that differs from `imgs` only in which fits are degenerate (for instance: the
+same run with the failing group fitted successfully, or failing for the other reason).  Then both
+runs end the same way, align the same groups in the same order against the same (never extended)
+reference catalog with the same `nmatches`, and every group whose own fit flag is the same gets the
+same outcome, the same statuses and the same `set_correction` calls: what happens to a failing
+group is invisible to all others (they end exactly as in a run in which that group merely had too
+few matches — or was aligned).  *With* `expand_refcat` this is false: the failing group is not
+appended (unless it has no overlap, `C14.appended_sound`), so later groups are matched against a
+smaller catalog than in the run without the failure (`example`s below). -/
+theorem fit_failure_isolated (imgs' : List Img) (hgid : imgs.map (·.gid) = imgs'.map (·.gid))
+    (hsrc : imgs.map (·.sources) = imgs'.map (·.sources))
+    (hc : cfg.catchFit = true) (hx : cfg.expand = false) :
+    let out := alignWcs imgs refIn cfg pairG refArea
+    let out' := alignWcs imgs' refIn cfg pairG refArea
+    out.err = out'.err ∧ out.order = out'.order ∧ out.nms = out'.nms ∧ out.initial = out'.initial ∧
+    out.refcat = out'.refcat ∧ out.refcat = out.initial ∧
+    (∀ (i : Nat) (gr : List Nat), out.order[i]? = some gr → fitFailOf imgs gr = fitFailOf imgs' gr →
+      out.outcomes[i]? = out'.outcomes[i]?) ∧
+    (∀ k, (∀ gr ∈ out.order, k ∈ gr → fitFailOf imgs gr = fitFailOf imgs' gr) →
+      (∀ s, Event.status k s ∈ out.events ↔ Event.status k s ∈ out'.events) ∧
+      (Event.correct k ∈ out.events ↔ Event.correct k ∈ out'.events)) := by
+  have hs := getD_sources imgs imgs' hsrc
+  intro out out'
+  show out.err = out'.err ∧ _
+  have e1 : out = alignWcsWith imgs cfg refArea refIn pairG imgs := rfl
+  have e2 : out' = alignWcsWith imgs cfg refArea refIn pairG imgs' :=
+    (alignWcsWith_shape imgs cfg refArea refIn pairG imgs' hgid hs).symm
+  rw [e1, e2]
+  unfold alignWcsWith
+  split
+  · simp [alignFail]
+  simp only []
+  split
+  · simp [alignFail]
+  split
+  · simp [alignFail]
+  next st hst =>
+  have hnog : (alignLoop imgs (dropEmpty imgs (formGroups (imgs.map (·.gid)))).1 cfg (cfg.enforce || !cfg.expand)
+      refArea ((dropEmpty imgs (formGroups (imgs.map (·.gid)))).1.length + 1) st.cur st.work st.cat).refcat
+      = st.cat := by
+    obtain ⟨h1, _, h3, _⟩ := alignLoop_refcat imgs (dropEmpty imgs (formGroups (imgs.map (·.gid)))).1 cfg
+      (cfg.enforce || !cfg.expand) refArea ((dropEmpty imgs (formGroups (imgs.map (·.gid)))).1.length + 1)
+      st.cur st.work st.cat
+    rw [h3 hx] at h1
+    simpa using h1
+  obtain ⟨i1, i2, i3, i4, i5⟩ := alignLoop_isolated imgs
+    (dropEmpty imgs (formGroups (imgs.map (·.gid)))).1 cfg (cfg.enforce || !cfg.expand) refArea imgs' hs hc hx
+    ((dropEmpty imgs (formGroups (imgs.map (·.gid)))).1.length + 1) st.cur st.work st.cat
+  have hord : (alignLoop imgs (dropEmpty imgs (formGroups (imgs.map (·.gid)))).1 cfg (cfg.enforce || !cfg.expand)
+      refArea ((dropEmpty imgs (formGroups (imgs.map (·.gid)))).1.length + 1) st.cur st.work st.cat).results.map (·.1)
+      = (alignLoop imgs' (dropEmpty imgs (formGroups (imgs.map (·.gid)))).1 cfg (cfg.enforce || !cfg.expand)
+      refArea ((dropEmpty imgs (formGroups (imgs.map (·.gid)))).1.length + 1) st.cur st.work st.cat).results.map (·.1) := by
+    exact forall₂_map_eq _ _ i5 (fun a b hab => hab.1)
+  refine ⟨i1, hord, i2, rfl, i3, hnog, ?_, ?_⟩
+  · intro i gr hgr hflag
+    simp only [List.getElem?_map] at hgr ⊢
+    cases hr : (alignLoop imgs (dropEmpty imgs (formGroups (imgs.map (·.gid)))).1 cfg (cfg.enforce || !cfg.expand)
+      refArea ((dropEmpty imgs (formGroups (imgs.map (·.gid)))).1.length + 1) st.cur st.work st.cat).results[i]? with
+    | none => rw [hr] at hgr; cases hgr
+    | some r =>
+      rw [hr] at hgr
+      simp only [Option.map_some, Option.some.injEq] at hgr
+      obtain ⟨r', hr', h1, h2⟩ := forall₂_get i5 i r hr
+      rw [hr', Option.map_some, Option.map_some, h2 (by rw [hgr]; rw [hgr] at h1; exact hflag)]
+  · intro k hk
+    have hk' : ∀ r ∈ (alignLoop imgs (dropEmpty imgs (formGroups (imgs.map (·.gid)))).1 cfg (cfg.enforce || !cfg.expand)
+      refArea ((dropEmpty imgs (formGroups (imgs.map (·.gid)))).1.length + 1) st.cur st.work st.cat).results,
+        k ∈ r.1 → fitFailOf imgs r.1 = fitFailOf imgs' r.1 :=
+      fun r hr hkr => hk r.1 (List.mem_map.mpr ⟨r, hr, rfl⟩) hkr
+    constructor
+    · intro s
+      simp only [List.mem_append, mem_blocks_status]
+      constructor
+      · rintro (h | ⟨r, hr, hkr, hsr⟩)
+        · exact Or.inl h
+        · obtain ⟨r', hr', h1, h2⟩ := forall₂_left i5 r hr
+          exact Or.inr ⟨r', hr', h1 ▸ hkr, by rw [hsr, h2 (hk' r hr hkr)]⟩
+      · rintro (h | ⟨r', hr', hkr, hsr⟩)
+        · exact Or.inl h
+        · obtain ⟨r, hr, h1, h2⟩ := forall₂_right i5 r' hr'
+          have hkr' : k ∈ r.1 := h1 ▸ hkr
+          exact Or.inr ⟨r, hr, hkr', by rw [hsr, h2 (hk' r hr hkr')]⟩
+    · simp only [List.mem_append, mem_blocks_correct]
+      constructor
+      · rintro (h | ⟨r, hr, hkr, hsr⟩)
+        · exact Or.inl h
+        · obtain ⟨r', hr', h1, h2⟩ := forall₂_left i5 r hr
+          exact Or.inr ⟨r', hr', h1 ▸ hkr, by rw [← h2 (hk' r hr hkr)]; exact hsr⟩
+      · rintro (h | ⟨r', hr', hkr, hsr⟩)
+        · exact Or.inl h
+        · obtain ⟨r, hr, h1, h2⟩ := forall₂_right i5 r' hr'
+          have hkr' : k ∈ r.1 := h1 ▸ hkr
+          exact Or.inr ⟨r, hr, hkr', by rw [h2 (hk' r hr hkr')]; exact hsr⟩
+
+/-! ### argument validation at the top of `align_wcs` (`alignWcsEntry`) -/
+
+/-- **first_bad_catalog**: the catalog check runs over the correctors in list order and stops at
+the first one without a usable catalog: `ValueError` "must have a valid catalog" for a missing one,
+`ValueError` of `WCSImageCatalog` for one without 'x'/'y' -/
+theorem first_bad_catalog (l : List ImgArg) :
+    (catalogError l = none ↔ ∀ x ∈ l, x.cat = .ok) ∧
+    (∀ e, catalogError l = some e ↔ ∃ pre x post, l = pre ++ x :: post ∧ (∀ y ∈ pre, y.cat = .ok) ∧
+      ((x.cat = .missing ∧ e = .noCatalog) ∨ (x.cat = .noXY ∧ e = .catalogNoXY))) := by
+  induction l with
+  | nil => simp [catalogError]
+  | cons a t ih =>
+    obtain ⟨ih1, ih2⟩ := ih
+    cases hc : a.cat with
+    | ok =>
+      have hce : catalogError (a :: t) = catalogError t := by simp [catalogError, hc]
+      rw [hce]
+      constructor
+      · rw [ih1]; simp [hc]
+      · intro e
+        rw [ih2 e]
+        constructor
+        · rintro ⟨pre, x, post, h1, h2, h3⟩
+          refine ⟨a :: pre, x, post, by rw [h1]; rfl, ?_, h3⟩
+          intro y hy
+          rcases List.mem_cons.mp hy with rfl | hy
+          · exact hc
+          · exact h2 y hy
+        · rintro ⟨pre, x, post, h1, h2, h3⟩
+          cases pre with
+          | nil =>
+            simp only [List.nil_append, List.cons.injEq] at h1
+            rw [← h1.1, hc] at h3
+            rcases h3 with ⟨h, _⟩ | ⟨h, _⟩ <;> cases h
+          | cons p pre' =>
+            simp only [List.cons_append, List.cons.injEq] at h1
+            exact ⟨pre', x, post, h1.2, fun y hy => h2 y (List.mem_cons_of_mem _ hy), h3⟩
+    | missing =>
+      have hce : catalogError (a :: t) = some .noCatalog := by simp [catalogError, hc]
+      rw [hce]
+      constructor
+      · simp [hc]
+      · intro e
+        constructor
+        · intro h
+          injection h with h
+          exact ⟨[], a, t, rfl, by simp, Or.inl ⟨hc, h.symm⟩⟩
+        · rintro ⟨pre, x, post, h1, h2, h3⟩
+          cases pre with
+          | nil =>
+            simp only [List.nil_append, List.cons.injEq] at h1
+            rw [← h1.1, hc] at h3
+            rcases h3 with ⟨_, h⟩ | ⟨h, _⟩
+            · rw [h]
+            · cases h
+          | cons p pre' =>
+            simp only [List.cons_append, List.cons.injEq] at h1
+            have := h2 p List.mem_cons_self
+            rw [← h1.1, hc] at this; cases this
+    | noXY =>
+      have hce : catalogError (a :: t) = some .catalogNoXY := by simp [catalogError, hc]
+      rw [hce]
+      constructor
+      · simp [hc]
+      · intro e
+        constructor
+        · intro h
+          injection h with h
+          exact ⟨[], a, t, rfl, by simp, Or.inr ⟨hc, h.symm⟩⟩
+        · rintro ⟨pre, x, post, h1, h2, h3⟩
+          cases pre with
+          | nil =>
+            simp only [List.nil_append, List.cons.injEq] at h1
+            rw [← h1.1, hc] at h3
+            rcases h3 with ⟨h, _⟩ | ⟨_, h⟩
+            · cases h
+            · rw [h]
+          | cons p pre' =>
+            simp only [List.cons_append, List.cons.injEq] at h1
+            have := h2 p List.mem_cons_self
+            rw [← h1.1, hc] at this; cases this
+
+/-- **validation_order**: which error wins when several arguments are invalid — the order of the
+checks in the code: (1) type of `wcscat`; (2) first corrector without a usable catalog; (3)
+`fitgeom` that is no string; (4) unknown `fitgeom`, **only when `minobj` is None** (the check is
+made while looking up the default of `minobj`); (5) `refcat`: corrector without catalog / table
+without RA, DEC / unsupported type; (6) everything after that is `alignWcs` on the accepted
+arguments (whose first act is the refusal of an empty reference catalog) -/
+theorem validation_order (a : AlignArgs) :
+    (a.wcscat.typeError = true → (alignWcsEntry a pairG refArea).err = some .wcscatType) ∧
+    (a.wcscat.typeError = false → ∀ e, catalogError a.wcscat.items = some e →
+      (alignWcsEntry a pairG refArea).err = some e) ∧
+    (a.wcscat.typeError = false → catalogError a.wcscat.items = none →
+      (a.fitgeom = .notString → (alignWcsEntry a pairG refArea).err = some .fitgeomNotString) ∧
+      (a.fitgeom = .unknown → a.minobj = none → (alignWcsEntry a pairG refArea).err = some .badFitgeom) ∧
+      (a.fitgeom ≠ .notString → ¬ (a.fitgeom = .unknown ∧ a.minobj = none) →
+        (∀ e, refCheck a.refcat = .error e → (alignWcsEntry a pairG refArea).err = some e) ∧
+        (∀ r, refCheck a.refcat = .ok r →
+          alignWcsEntry a pairG refArea = alignWcs (a.wcscat.items.map (·.img)) r a.cfg pairG refArea))) := by
+  refine ⟨?_, ?_, ?_⟩
+  · intro h; unfold alignWcsEntry; rw [if_pos h]; rfl
+  · intro h e he; unfold alignWcsEntry; rw [if_neg (by simp [h])]; simp only [he]; rfl
+  · intro h hc
+    refine ⟨?_, ?_, ?_⟩
+    · intro hf; unfold alignWcsEntry; rw [if_neg (by simp [h])]; simp only [hc]; rw [if_pos hf]; rfl
+    · intro hf hm
+      unfold alignWcsEntry
+      rw [if_neg (by simp [h])]; simp only [hc]
+      rw [if_neg (by rw [hf]; simp), if_pos ⟨hf, hm⟩]; rfl
+    · intro hf hm
+      constructor
+      · intro e he
+        unfold alignWcsEntry
+        rw [if_neg (by simp [h])]; simp only [hc]
+        rw [if_neg hf, if_neg hm]; simp only [he]; rfl
+      · intro r hr
+        unfold alignWcsEntry
+        rw [if_neg (by simp [h])]; simp only [hc]
+        rw [if_neg hf, if_neg hm]; simp only [hr]
+
+/-- `alignWcsEntry` is a validation failure with nothing written, or `alignWcs` on the accepted
+arguments -/
+theorem entry_cases (a : AlignArgs) :
+    (∃ e, e.isValidation = true ∧ e ≠ .emptyRefcat ∧ alignWcsEntry a pairG refArea = alignFail e []) ∨
+    (∃ r, refCheck a.refcat = .ok r ∧ ¬ (a.fitgeom = .unknown ∧ a.minobj = none) ∧ a.fitgeom ≠ .notString ∧
+      alignWcsEntry a pairG refArea = alignWcs (a.wcscat.items.map (·.img)) r a.cfg pairG refArea) := by
+  unfold alignWcsEntry
+  split
+  · exact Or.inl ⟨_, rfl, by simp, rfl⟩
+  split
+  · next e he =>
+    left
+    refine ⟨e, ?_, ?_, rfl⟩
+    · rcases ((first_bad_catalog a.wcscat.items).2 e).mp he with ⟨_, _, _, _, _, ⟨_, h⟩ | ⟨_, h⟩⟩ <;> rw [h] <;> rfl
+    · rcases ((first_bad_catalog a.wcscat.items).2 e).mp he with ⟨_, _, _, _, _, ⟨_, h⟩ | ⟨_, h⟩⟩ <;> rw [h] <;> simp
+  split
+  · exact Or.inl ⟨_, rfl, by simp, rfl⟩
+  next hns =>
+  split
+  · exact Or.inl ⟨_, rfl, by simp, rfl⟩
+  next hnu =>
+  split
+  · next e he =>
+    left
+    have : e = .refNoCatalog ∨ e = .refNoRADEC ∨ e = .refcatType := by
+      unfold refCheck at he
+      split at he
+      · cases he
+      · split at he
+        · cases he
+        · injection he with he; exact Or.inl he.symm
+      · split at he
+        · cases he
+        · injection he with he; exact Or.inr (Or.inl he.symm)
+      · injection he with he; exact Or.inr (Or.inr he.symm)
+    rcases this with h | h | h <;> exact ⟨e, by rw [h]; rfl, by rw [h]; simp, rfl⟩
+  · next r hr => exact Or.inr ⟨r, hr, hnu, hns, rfl⟩
+
+/-- **invalid_args_no_effect**: when `align_wcs` ends with one of the argument-validation errors
+(wrong type of `wcscat`, corrector without usable catalog, `fitgeom` not a string / unknown with
+`minobj=None`, reference corrector without catalog, table without RA/DEC, unsupported `refcat`
+type, empty reference catalog) it has written **no** status, called no `set_correction`, aligned
+nothing and built no catalog: the trace is empty.  (Not covered, because they come later:
+`NotEnoughCatalogs` — raised after the `FAILED: empty source catalog` statuses,
+`not_enough_after_empty_status` — and the `KeyError` of an unknown `fitgeom` passed together with an
+explicit `minobj`, `late_fitgeom_error`.) -/
+theorem invalid_args_no_effect (a : AlignArgs) (e : AlignErr)
+    (he : (alignWcsEntry a pairG refArea).err = some e) (hv : e.isValidation = true) :
+    (alignWcsEntry a pairG refArea).events = [] ∧ (alignWcsEntry a pairG refArea).order = [] ∧
+    (alignWcsEntry a pairG refArea).refcat = [] ∧ (alignWcsEntry a pairG refArea).expansions = [] := by
+  rcases entry_cases pairG refArea a with ⟨e', _, _, h⟩ | ⟨r, _, _, _, h⟩
+  · rw [h]; simp [alignFail]
+  · rw [h] at he ⊢
+    rcases alignWcs_ends (a.wcscat.items.map (·.img)) a.cfg refArea r pairG with
+      ⟨h1, _⟩ | h1 | ⟨h1, _, _⟩ | ⟨st, _, _, herr, _⟩
+    · rw [h1]; simp [alignFail]
+    · rw [h1] at he; simp only [alignFail, Option.some.injEq] at he; rw [← he] at hv; cases hv
+    · rw [h1] at he; simp only [alignFail, Option.some.injEq] at he; rw [← he] at hv; cases hv
+    · rw [herr] at he
+      rcases alignLoop_err (a.wcscat.items.map (·.img)) _ a.cfg _ refArea _ st.cur st.work st.cat with
+        h1 | ⟨h1, _⟩ | ⟨h1, _⟩ | ⟨f, h1, _⟩ <;> rw [h1] at he
+      · cases he
+      all_goals (simp only [Option.some.injEq] at he; rw [← he] at hv; cases hv)
+
+/-- **not_enough_after_empty_status**: `NotEnoughCatalogs` is the one argument-related error raised
+*after* something was written — the `FAILED: empty source catalog` statuses of the groups that were
+dropped; still no `set_correction` call, nothing aligned, no catalog -/
+theorem not_enough_after_empty_status (a : AlignArgs)
+    (he : (alignWcsEntry a pairG refArea).err = some .notEnoughCatalogs) :
+    (∀ k, Event.correct k ∉ (alignWcsEntry a pairG refArea).events) ∧
+    (∀ k s, Event.status k s ∈ (alignWcsEntry a pairG refArea).events → s = .failed .emptyCatalog) ∧
+    (alignWcsEntry a pairG refArea).order = [] ∧ (alignWcsEntry a pairG refArea).refcat = [] := by
+  rcases entry_cases pairG refArea a with ⟨e', _, _, h⟩ | ⟨r, _, _, _, h⟩
+  · rw [h]; simp [alignFail]
+  · rw [h] at he ⊢
+    exact raises_before_any_change _ r a.cfg pairG refArea (Or.inl he)
+
+/-- **late_fitgeom_error**: an unknown `fitgeom` passed together with an explicit `minobj` is not
+caught by the validation (the check sits inside `if minobj is None`); it surfaces as the `KeyError`
+of `SUPPORTED_FITGEOM_MODES[fitgeom]` in the first `align_to_ref` call: after the `FAILED: empty
+source catalog` and REFERENCE statuses were written, but before any group is aligned — no
+`set_correction` call, no other status -/
+theorem late_fitgeom_error (a : AlignArgs)
+    (he : (alignWcsEntry a pairG refArea).err = some .fitgeomKeyError) :
+    (a.fitgeom = .unknown ∧ a.minobj ≠ none) ∧
+    (∀ k, Event.correct k ∉ (alignWcsEntry a pairG refArea).events) ∧
+    (∀ k s, Event.status k s ∈ (alignWcsEntry a pairG refArea).events →
+      s = .failed .emptyCatalog ∨ s = .reference) ∧
+    (alignWcsEntry a pairG refArea).order = [] := by
+  rcases entry_cases pairG refArea a with ⟨e', hv, _, h⟩ | ⟨r, _, hnu, hns, h⟩
+  · rw [h] at he; simp only [alignFail, Option.some.injEq] at he
+    rw [he] at hv; cases hv
+  · rw [h] at he ⊢
+    rcases alignWcs_ends (a.wcscat.items.map (·.img)) a.cfg refArea r pairG with
+      ⟨h1, _⟩ | h1 | ⟨h1, _, _⟩ | ⟨st, _, hst, herr, hord, _, _, _, _, hev⟩
+    · rw [h1] at he; cases he
+    · rw [h1] at he; cases he
+    · rw [h1] at he; cases he
+    · rw [herr] at he
+      have hk : a.cfg.fitgeomKnown = false := by
+        rcases alignLoop_err (a.wcscat.items.map (·.img)) _ a.cfg _ refArea _ st.cur st.work st.cat with
+          h1 | ⟨h1, _⟩ | ⟨_, h2⟩ | ⟨f, h1, _⟩
+        · rw [h1] at he; cases he
+        · rw [h1] at he; cases he
+        · exact h2
+        · rw [h1] at he; cases he
+      refine ⟨?_, ?_, ?_, by rw [hord, alignLoop_unknown_fitgeom _ _ _ _ refArea hk]; rfl⟩
+      · have hfg : a.fitgeom = .unknown := by
+          cases hfg : a.fitgeom with
+          | known m => simp [AlignArgs.cfg, hfg] at hk
+          | unknown => rfl
+          | notString => exact absurd hfg hns
+        refine ⟨hfg, fun hm => hnu ⟨hfg, hm⟩⟩
+      · intro k hk'
+        rw [hev, alignLoop_unknown_fitgeom _ _ _ _ refArea hk] at hk'
+        simp only [List.flatMap_nil, List.append_nil, List.mem_append] at hk'
+        rcases hk' with hk' | hk'
+        · exact List.count_eq_zero.mp (correctCount_dropEmpty _ _ k) hk'
+        · obtain ⟨gr, hgr⟩ := alignStart_ev1 _ _ _ refArea r pairG st hst
+          rw [hgr] at hk'
+          obtain ⟨i, _, hi⟩ := List.mem_map.mp hk'
+          cases hi
+      · intro k s hk'
+        rw [hev, alignLoop_unknown_fitgeom _ _ _ _ refArea hk] at hk'
+        simp only [List.flatMap_nil, List.append_nil, List.mem_append] at hk'
+        rcases hk' with hk' | hk'
+        · exact Or.inl ((mem_dropEmpty_status _ _ k s).mp hk').1
+        · obtain ⟨gr, hgr⟩ := alignStart_ev1 _ _ _ refArea r pairG st hst
+          rw [hgr] at hk'
+          obtain ⟨i, _, hi⟩ := List.mem_map.mp hk'
+          injection hi with _ h2
+          exact Or.inr h2.symm
+
+/-! ### `fit_wcs` (`fitWcs`) -/
+
+/-- what `fit_wcs` does once its arguments are accepted: the initial status, then the block of the
+one-image group, decided by the length of the (pre-matched) catalog and the fit flag -/
+theorem fitwcs_returns (a : FitArgs) (h : (fitWcs a).err = none) :
+    ∃ fitmin, a.fitgeom = .known fitmin ∧
+      (fitWcs a).events = Event.status 0 (.failed .unknownError) ::
+        blockEvents ([0], if a.img.sources.length < fitmin then some .notEnoughMatches
+                          else a.img.fitFail.map (·.reason)) := by
+  unfold fitWcs at h ⊢
+  by_cases hw : (!a.metaWritable) = true
+  · rw [if_pos hw] at h; cases h
+  rw [if_neg hw] at h ⊢
+  cases hfg : a.fitgeom with
+  | notString => simp only [hfg] at h; cases h
+  | unknown => simp only [hfg] at h; cases h
+  | known fitmin =>
+    simp only [hfg] at h ⊢
+    refine ⟨fitmin, rfl, ?_⟩
+    by_cases h1 : a.cat ≠ .ok
+    · rw [if_pos h1] at h; cases h
+    rw [if_neg h1] at h ⊢
+    by_cases h2 : (!a.refHasRADEC) = true
+    · rw [if_pos h2] at h; cases h
+    rw [if_neg h2] at h ⊢
+    by_cases h3 : a.refSrcs.isEmpty = true
+    · rw [if_pos h3] at h; cases h
+    rw [if_neg h3] at h ⊢
+    cases hg : alignGroup [a.img] { expand := false, enforce := true, minobj := fitmin, fitmin := fitmin,
+                                    mode := .none1to1 } [0] (rowsOfTable a.refSrcs none) with
+    | error e => simp only [hg] at h; cases h
+    | ok q =>
+      obtain ⟨o, un⟩ := q
+      simp only [hg]
+      have ho := (alignGroup_ok _ _ _ _ o un hg).1
+      have e1 : groupSources [a.img] [0] = a.img.sources.map fun s => (s, 0) := by
+        simp [groupSources]
+      have e2 : fitFailOf [a.img] [0] = a.img.fitFail := by
+        simp [fitFailOf]
+      rw [ho]
+      simp only [groupOutcome, nMatches, effMinobj, e1, e2, List.length_map, lt_self_iff_false, if_false]
+      rfl
+
+/-- **fitwcs_final_status**: when `fit_wcs` returns, the last thing it did was to write the final
+status of the image, and that status is SUCCESS or FAILED with a reason that is never the initial
+'Unknown error'; `fit_info` was written exactly twice (initial, final) -/
+theorem fitwcs_final_status (a : FitArgs) (h : (fitWcs a).err = none) :
+    ∃ s, (fitWcs a).events.getLast? = some (Event.status 0 s) ∧
+      (s = .success ∨ s = .failed .notEnoughMatches ∨ s = .failed .singularMatrix ∨
+        s = .failed .notEnoughPoints) ∧
+      statusCount 0 (fitWcs a).events = 2 := by
+  obtain ⟨fitmin, _, hev⟩ := fitwcs_returns a h
+  rw [hev]
+  split
+  · exact ⟨_, by simp [blockEvents], Or.inr (Or.inl rfl), by simp [blockEvents, statusCount, isStatusOf]⟩
+  · cases hf : a.img.fitFail with
+    | none => exact ⟨.success, by simp [blockEvents], Or.inl rfl, by simp [blockEvents, statusCount, isStatusOf]⟩
+    | some f =>
+      cases f
+      · exact ⟨_, by simp [blockEvents, FitFail.reason], Or.inr (Or.inr (Or.inl rfl)),
+          by simp [blockEvents, statusCount, isStatusOf]⟩
+      · exact ⟨_, by simp [blockEvents, FitFail.reason], Or.inr (Or.inr (Or.inr rfl)),
+          by simp [blockEvents, statusCount, isStatusOf]⟩
+
+/-- **fitwcs_corrected_iff_success**: when `fit_wcs` returns, `set_correction` was called exactly
+once if the final status is SUCCESS and not at all otherwise; SUCCESS means: at least as many
+(pre-matched) sources as the fit geometry needs and a fit that is not degenerate -/
+theorem fitwcs_corrected_iff_success (a : FitArgs) (h : (fitWcs a).err = none) :
+    correctCount 0 (fitWcs a).events =
+      (if (fitWcs a).events.getLast? = some (Event.status 0 .success) then 1 else 0) ∧
+    (∀ k, k ≠ 0 → Event.correct k ∉ (fitWcs a).events) ∧
+    ((fitWcs a).events.getLast? = some (Event.status 0 .success) ↔
+      ∃ fitmin, a.fitgeom = .known fitmin ∧ fitmin ≤ a.img.sources.length ∧ a.img.fitFail = none) := by
+  obtain ⟨fitmin, hfg, hev⟩ := fitwcs_returns a h
+  rw [hev]
+  by_cases hlt : a.img.sources.length < fitmin
+  · rw [if_pos hlt]
+    refine ⟨by simp [blockEvents, correctCount], by simp [blockEvents], ?_⟩
+    constructor
+    · intro hc; simp [blockEvents] at hc
+    · rintro ⟨m, hm, hle, _⟩
+      rw [hfg] at hm; injection hm with hm; omega
+  · rw [if_neg hlt]
+    cases hf : a.img.fitFail with
+    | none =>
+      refine ⟨by simp [blockEvents, correctCount], by simp [blockEvents], ?_⟩
+      constructor
+      · intro _; exact ⟨fitmin, hfg, by omega, rfl⟩
+      · intro _; simp [blockEvents]
+    | some f =>
+      refine ⟨by cases f <;> simp [blockEvents, correctCount, FitFail.reason],
+        by simp [blockEvents], ?_⟩
+      constructor
+      · intro hc; cases f <;> simp [blockEvents, FitFail.reason] at hc
+      · rintro ⟨_, _, _, hn⟩; cases hn
+
+/-- **fitwcs_invalid_fitgeom**: an unsupported `fitgeom` makes `fit_wcs` raise `ValueError` without
+touching the WCS, but the initial `FAILED: Unknown error` status HAS been written by then (the
+status write precedes the check); the same holds for every other exception that leaves `fit_wcs` —
+what was written is at most the initial status, and no `set_correction` call was made -/
+theorem fitwcs_invalid_fitgeom (a : FitArgs) :
+    (a.metaWritable = true → a.fitgeom = .unknown →
+      (fitWcs a).err = some .badFitgeom ∧
+      (fitWcs a).events = [Event.status 0 (.failed .unknownError)]) ∧
+    ((fitWcs a).err ≠ none →
+      ((fitWcs a).events = [] ∨ (fitWcs a).events = [Event.status 0 (.failed .unknownError)]) ∧
+      ∀ k, Event.correct k ∉ (fitWcs a).events) := by
+  constructor
+  · intro hw hf
+    unfold fitWcs
+    rw [if_neg (by simp [hw])]
+    simp only [hf]
+    constructor <;> first | rfl | trivial
+  · intro herr
+    have key : (fitWcs a).events = [] ∨ (fitWcs a).events = [Event.status 0 (.failed .unknownError)] := by
+      rcases fitWcs_events_cases a with h | h | ⟨o, h1, _⟩
+      · exact Or.inl h
+      · exact Or.inr h
+      · exact absurd h1 herr
+    refine ⟨key, ?_⟩
+    intro k hk
+    rcases key with h | h <;> rw [h] at hk <;> simp at hk
 
 /-! ### non-vacuity -/
 
 /-- three images: an ungrouped one and a group `{1, 2}` whose second member has an empty catalog;
 no reference catalog -/
-def imgs3 : List Img := [⟨none, [1, 2, 3]⟩, ⟨some 7, [2, 3, 4]⟩, ⟨some 7, []⟩]
+def imgs3 : List Img := [⟨none, [1, 2, 3], none⟩, ⟨some 7, [2, 3, 4], none⟩, ⟨some 7, [], none⟩]
 def cfg0 : AlignCfg := { expand := true, enforce := false, minobj := 2, fitmin := 2, mode := .ideal }
 def g2 : List (List (ℚ × Nat)) := [[(0, 0), (5, 0)], [(5, 0), (0, 0)]]
 
@@ -290,11 +940,132 @@ example : (alignWcs imgs3 none cfg0 g2 (fun _ _ => ((0 : ℚ), 0))).events =
   decide +kernel
 /-- a `minobj` below the minimum of the fit geometry is raised to it (`max(minobj, minimum)`): with
 `minobj = 1`, `general` (3 sources) and two matches the image ends FAILED, not corrected -/
-example : (alignWcs [⟨none, [1, 2, 3]⟩, ⟨none, [1, 2, 9]⟩] none
+example : (alignWcs [⟨none, [1, 2, 3], none⟩, ⟨none, [1, 2, 9], none⟩] none
       { expand := false, enforce := true, minobj := 1, fitmin := 3, mode := .ideal } g2
       (fun _ _ => ((0 : ℚ), 0))).events
     = [.status 0 .reference, .status 1 (.failed .notEnoughMatches)] := by decide +kernel
-example : (alignWcs [⟨none, [1, 2]⟩, ⟨none, []⟩] none cfg0 g2 (fun _ _ => ((0 : ℚ), 0))).err
+example : (alignWcs [⟨none, [1, 2], none⟩, ⟨none, [], none⟩] none cfg0 g2 (fun _ _ => ((0 : ℚ), 0))).err
     = some .notEnoughCatalogs := by decide +kernel
+
+
+/-! ### degenerate fits: the witness of finding F26 and what `expand_refcat` changes -/
+
+/-- three ungrouped images against a reference table `[1 … 6]`; the matched sources of the middle
+one are collinear (general fit) -/
+def imgsF : List Img := [⟨none, [1, 2, 3], none⟩, ⟨none, [3, 4, 5], some .singular⟩, ⟨none, [4, 5, 6], none⟩]
+def refF : Option (List Nat × Option (List Int)) := some ([1, 2, 3, 4, 5, 6], none)
+def cfgF (c : Bool) : AlignCfg :=
+  { expand := false, enforce := true, minobj := 3, fitmin := 3, mode := .ideal, catchFit := c }
+
+/-- the code since 4565404: the middle image is FAILED: singular matrix, the others are aligned -/
+example : (alignWcs imgsF refF (cfgF true) ([] : List (List (ℚ × Nat))) (fun _ _ => ((1 : ℚ), 0))).events =
+    [.correct 0, .status 0 .success, .status 1 (.failed .singularMatrix), .correct 2, .status 2 .success] ∧
+    (alignWcs imgsF refF (cfgF true) ([] : List (List (ℚ × Nat))) (fun _ _ => ((1 : ℚ), 0))).err = none := by
+  decide +kernel
+
+/-- **witness of F26** (behaviour before 4565404, `catchFit = false`): `SingularMatrixError` leaves
+`align_wcs` in mid-run — image 0 is already corrected, images 1 and 2 have no status at all: the
+conclusion of `status_total` (exactly one status per image) fails, and so does
+`no_midrun_exception` -/
+def outF := alignWcs imgsF refF (cfgF false) ([] : List (List (ℚ × Nat))) (fun _ _ => ((1 : ℚ), 0))
+example : outF.err = some (.fitError .singular) ∧ outF.events = [.correct 0, .status 0 .success] ∧
+    statusCount 1 outF.events = 0 ∧ statusCount 2 outF.events = 0 ∧ statusCount 2 outF.events ≠ 1 := by
+  decide +kernel
+
+/-- too few positively weighted matched sources: `FAILED: not enough points` -/
+example : (alignWcs [⟨none, [1, 2, 3], some .notEnoughPoints⟩, ⟨none, [4, 5, 6], none⟩] refF (cfgF true)
+    ([] : List (List (ℚ × Nat))) (fun _ _ => ((1 : ℚ), 0))).events =
+    [.status 0 (.failed .notEnoughPoints), .correct 1, .status 1 .success] := by decide +kernel
+
+/-- a degenerate fit is only attempted with enough matches: with two matches the flagged image is
+`FAILED: not enough matches` -/
+example : (alignWcs [⟨none, [1, 2, 9], some .singular⟩] refF (cfgF true)
+    ([] : List (List (ℚ × Nat))) (fun _ _ => ((1 : ℚ), 0))).events =
+    [.status 0 (.failed .notEnoughMatches)] := by decide +kernel
+
+/-- a group shares the failure: both members FAILED, none corrected -/
+example : (alignWcs [⟨some 1, [1, 2], none⟩, ⟨some 1, [3, 4], some .singular⟩, ⟨none, [4, 5, 6], none⟩] refF
+    (cfgF true) ([] : List (List (ℚ × Nat))) (fun _ _ => ((1 : ℚ), 0))).events =
+    [.status 0 (.failed .singularMatrix), .status 1 (.failed .singularMatrix), .correct 2, .status 2 .success] := by
+  decide +kernel
+
+/-- **what `expand_refcat` changes**: reference table `[1, 2, 3]`; image 0 `[1, 2, 3, 4, 5, 6]` would
+contribute 4, 5, 6; image 1 `[4, 5, 6]` is matched against the expanded catalog.  Without the
+failure image 1 is SUCCESS; when the fit of image 0 is degenerate (and it overlaps the reference)
+it is not appended and image 1 ends FAILED: not enough matches — `fit_failure_isolated` does not
+extend to `expand_refcat` -/
+example :
+    (alignWcs [⟨none, [1, 2, 3, 4, 5, 6], none⟩, ⟨none, [4, 5, 6], none⟩] (some ([1, 2, 3], none))
+      { expand := true, enforce := true, minobj := 3, fitmin := 3, mode := .ideal }
+      ([] : List (List (ℚ × Nat))) (fun _ _ => ((1 : ℚ), 0))).events =
+      [.correct 0, .status 0 .success, .correct 1, .status 1 .success] ∧
+    (alignWcs [⟨none, [1, 2, 3, 4, 5, 6], some .singular⟩, ⟨none, [4, 5, 6], none⟩] (some ([1, 2, 3], none))
+      { expand := true, enforce := true, minobj := 3, fitmin := 3, mode := .ideal }
+      ([] : List (List (ℚ × Nat))) (fun _ _ => ((1 : ℚ), 0))).events =
+      [.status 0 (.failed .singularMatrix), .status 1 (.failed .notEnoughMatches)] := by
+  decide +kernel
+
+/-- … unless the failing group has no overlap with the reference (`not area`): then its unmatched
+sources are appended although it FAILED, as for `not enough matches` -/
+example :
+    (alignWcs [⟨none, [1, 2, 3, 4, 5, 6], some .singular⟩, ⟨none, [4, 5, 6], none⟩] (some ([1, 2, 3], none))
+      { expand := true, enforce := true, minobj := 3, fitmin := 3, mode := .ideal }
+      ([] : List (List (ℚ × Nat))) (fun _ _ => ((0 : ℚ), 0))).events =
+      [.status 0 (.failed .singularMatrix), .correct 1, .status 1 .success] := by
+  decide +kernel
+
+/-! ### argument validation and `fit_wcs` -/
+
+def okImg (srcs : List Nat) : ImgArg := { isCorrector := true, cat := .ok, img := ⟨none, srcs, none⟩ }
+def argsOK : AlignArgs :=
+  { wcscat := .list [okImg [1, 2, 3], okImg [2, 3, 4]], refcat := .none, fitgeom := .known 2, minobj := none,
+    expand := false, enforce := true, mode := .ideal }
+
+example : (alignWcsEntry argsOK g2 (fun _ _ => ((0 : ℚ), 0))).events =
+    [.status 0 .reference, .correct 1, .status 1 .success] := by decide +kernel
+def badList : WcscatArg := .list [okImg [1], ⟨false, .ok, default⟩]
+def noCatList : WcscatArg := .list [okImg [1], ⟨true, .missing, default⟩, ⟨true, .noXY, default⟩]
+
+/-- two invalid arguments: the type of `wcscat` wins over everything -/
+example : (alignWcsEntry { argsOK with wcscat := badList, fitgeom := .unknown, refcat := .unsupported } g2
+    (fun _ _ => ((0 : ℚ), 0))).err = some .wcscatType := by decide +kernel
+/-- a missing catalog wins over a later catalog without x/y, a bad `fitgeom` and a bad `refcat` -/
+example : (alignWcsEntry { argsOK with wcscat := noCatList, fitgeom := .unknown, refcat := .table false [1] none } g2
+    (fun _ _ => ((0 : ℚ), 0))).err = some .noCatalog := by decide +kernel
+/-- a bad `fitgeom` (with `minobj=None`) wins over a bad `refcat` -/
+example : (alignWcsEntry { argsOK with fitgeom := .unknown, refcat := .unsupported } g2
+    (fun _ _ => ((0 : ℚ), 0))).err = some .badFitgeom := by decide +kernel
+/-- … but with an explicit `minobj` the bad `fitgeom` is not noticed and the bad `refcat` wins -/
+example : (alignWcsEntry { argsOK with fitgeom := .unknown, minobj := some 2, refcat := .unsupported } g2
+    (fun _ _ => ((0 : ℚ), 0))).err = some .refcatType := by decide +kernel
+/-- … and with a valid `refcat` it surfaces as a `KeyError` after the REFERENCE status was written -/
+example : (alignWcsEntry { argsOK with fitgeom := .unknown, minobj := some 2 } g2 (fun _ _ => ((0 : ℚ), 0))).err
+      = some .fitgeomKeyError ∧
+    (alignWcsEntry { argsOK with fitgeom := .unknown, minobj := some 2 } g2 (fun _ _ => ((0 : ℚ), 0))).events
+      = [.status 0 .reference] := by decide +kernel
+/-- a table without RA/DEC wins over its being empty; an empty one is refused before grouping -/
+example : (alignWcsEntry { argsOK with refcat := .table false [] none } g2 (fun _ _ => ((0 : ℚ), 0))).err
+      = some .refNoRADEC ∧
+    (alignWcsEntry { argsOK with refcat := .table true [] none } g2 (fun _ _ => ((0 : ℚ), 0))).err
+      = some .emptyRefcat ∧
+    (alignWcsEntry { argsOK with refcat := .corrector false [1] } g2 (fun _ _ => ((0 : ℚ), 0))).err
+      = some .refNoCatalog := by decide +kernel
+/-- a single corrector is wrapped into a list -/
+example : (alignWcsEntry { argsOK with wcscat := .single .ok ⟨none, [1, 2], none⟩, refcat := .table true [1, 2] none } g2
+    (fun _ _ => ((0 : ℚ), 0))).events = [.correct 0, .status 0 .success] := by decide +kernel
+
+def fitOK : FitArgs :=
+  { metaWritable := true, fitgeom := .known 3, cat := .ok, img := ⟨none, [1, 2, 3, 4], none⟩, refHasRADEC := true,
+    refSrcs := [1, 2, 3, 4] }
+example : (fitWcs fitOK).events = [.status 0 (.failed .unknownError), .correct 0, .status 0 .success] ∧
+    (fitWcs fitOK).err = none := by decide
+example : (fitWcs { fitOK with img := ⟨none, [1, 2, 3, 4], some .singular⟩ }).events =
+    [.status 0 (.failed .unknownError), .status 0 (.failed .singularMatrix)] := by decide
+example : (fitWcs { fitOK with img := ⟨none, [1, 2], none⟩, refSrcs := [1, 2] }).events =
+    [.status 0 (.failed .unknownError), .status 0 (.failed .notEnoughMatches)] := by decide
+example : (fitWcs { fitOK with fitgeom := .unknown }).err = some .badFitgeom ∧
+    (fitWcs { fitOK with fitgeom := .unknown }).events = [.status 0 (.failed .unknownError)] := by decide
+example : (fitWcs { fitOK with refSrcs := [1, 2, 3] }).err = some .lengthMismatch ∧
+    (fitWcs { fitOK with refSrcs := [1, 2, 3] }).events = [.status 0 (.failed .unknownError)] := by decide
 
 end TW.C13
